@@ -1,6 +1,8 @@
 /-
-C01 main theorem, fragment F3a: the decidable side conditions with `@fold` (no imported tags), the
-fold tables of a query tree, and the IR-level conditions `noImports`.  Compiled into the driver.
+C01 main theorem with `@fold`: the decidable side conditions `Hyps3` (on the query tree only), the
+fold tables of a query tree, and the IR-level check `importsOKC` on the imported tags of the folds of
+a compiled query (a THEOREM about `toIR`: `importsOKC_of_toIR` in `StaticImports.lean`; the driver
+still evaluates it per generated query as a regression check).  Compiled into the driver.
 -/
 import TrustfallModel.Proofs.InterpSpec.HypsDef
 
@@ -71,9 +73,11 @@ def keysDistinct : List TagKey → Bool
   | k :: rest => !(rest.any (keyEq k)) && keysDistinct rest
 
 mutual
-/-- F-10 guard and sanity of the imports of every fold (`chain`: the keys imported by the enclosing
-folds): a fold imports each tag once, none that an enclosing fold already imported, and not its own
-count. -/
+/-- The imports of every fold are in order (`chain`: the keys imported by the enclosing folds): a fold
+imports each tag once, none that an enclosing fold already imported, and not its own count.  Before
+the fix of F-10 (`reference_tag` pushed a tag once per use) this could fail on real queries and was a
+hypothesis of the main theorem; now it holds for every compiled query (`importsOKC_of_toIR`) and is
+only an intermediate fact of the proof (`CompOK.impok`). -/
 def importsOKC (chain : List TagKey) : Component → Bool
   | .mk _ _ _ folds _ => importsOKF chain folds
 def importsOKF (chain : List TagKey) : List Fold → Bool
@@ -85,18 +89,20 @@ def importsOKF (chain : List TagKey) : List Fold → Bool
 end
 
 mutual
-/-- The hypotheses at and below a node, with `@fold`: `miss` = the node may be evaluated in a
-missing optional scope (F-9 guard: a fold with a count filter must not be). -/
-def hyps3Node (H : HypEnv) (miss : Bool) (pre : Name) : QNode → Bool
+/-- The hypotheses at and below a node, with `@fold`.  (There is no F-9 guard any more: with the
+fixed `apply_fold_specific_filter` a fold with a count filter may sit in a missing `@optional` scope —
+its post-filters pass, as the specification says; only the per-filter set-up must succeed, which is
+what `varOK` of the count filters' variables states.) -/
+def hyps3Node (H : HypEnv) (pre : Name) : QNode → Bool
   | .mk ct fields =>
     match coerce H.S pre ct with
     | .ok post =>
       filtersInOrder H.S post fields && (specFilters fields).all (varOK H) &&
-        hyps3Fields H miss post fields
+        hyps3Fields H post fields
     | .error _ => true
-def hyps3Fields (H : HypEnv) (miss : Bool) (ty : Name) : List QField → Bool
+def hyps3Fields (H : HypEnv) (ty : Name) : List QField → Bool
   | [] => true
-  | .prop _ _ :: rest => hyps3Fields H miss ty rest
+  | .prop _ _ :: rest => hyps3Fields H ty rest
   | .edge n params kind child :: rest =>
     (match H.S.edge? ty n with
       | some ed =>
@@ -105,15 +111,13 @@ def hyps3Fields (H : HypEnv) (miss : Bool) (ty : Name) : List QField → Bool
           paramsAgreeB H n params ps && recOK H ty ed n params ps kind &&
             (match kind with
               | .fold fds =>
-                ((fds.all fun d => match d with | .countFilter _ _ => false | _ => true) || !miss) &&
-                  (fds.all fun d => match d with
+                (fds.all fun d => match d with
                     | .countFilter op arg => varOK H ("", op, arg)
                     | _ => true) &&
-                  hyps3Node H false ed.target child
-              | .optional => hyps3Node H true ed.target child
-              | _ => hyps3Node H miss ed.target child)
+                  hyps3Node H ed.target child
+              | _ => hyps3Node H ed.target child)
         | .error _ => true
-      | none => true) && hyps3Fields H miss ty rest
+      | none => true) && hyps3Fields H ty rest
 end
 
 /-- The hypotheses of the main theorem with folds (on the tree) . -/
@@ -125,16 +129,16 @@ def hyps3B (H : HypEnv) (q : Query) : Bool :=
       (H.D.start q.rootEdge
           (Spec.completeParams (declParams H.senv [""] q.rootEdge) q.rootParams) ==
         H.D.start q.rootEdge rootParams) &&
-      decide (height q.root ≤ 64) && hyps3Node H false root.target q.root
+      decide (height q.root ≤ 64) && hyps3Node H root.target q.root
     | .error _ => true
   | none => true
 
-/-- `Hyps` with folds: the hypotheses on the tree, and the F-10 guard on the compiled query (no fold
-imports a tag twice). -/
-def Hyps3 (H : HypEnv) (q : Query) (ir : IRQuery) : Prop :=
-  hyps3B H q = true ∧ importsOKC [] ir.rootComponent = true
+/-- `Hyps` with folds: the hypotheses on the query tree.  (Nothing is assumed about the compiled query
+any more: the former second half, `importsOKC [] ir.rootComponent` — the "F-10 guard" — is proved from
+`toIR S q = .ok ir`, and the former F-9 guard inside `hyps3Fields` is gone with the engine's panic.) -/
+def Hyps3 (H : HypEnv) (q : Query) : Prop := hyps3B H q = true
 
-instance (H : HypEnv) (q : Query) (ir : IRQuery) : Decidable (Hyps3 H q ir) :=
-  inferInstanceAs (Decidable (_ ∧ _))
+instance (H : HypEnv) (q : Query) : Decidable (Hyps3 H q) :=
+  inferInstanceAs (Decidable (_ = true))
 
 end TF.InterpSpec
